@@ -391,6 +391,20 @@ pub fn run_mem_family(ctx: &Ctx, fam: &MemFamily) -> Stats {
                     }
                 }
             }
+            if kind == SrcKind::U16 {
+                let mut tk = 0usize;
+                let ok = memgen::after_pair_triples16(|v| {
+                    tk += 1;
+                    if tk % LANES != lane {
+                        return true;
+                    }
+                    k += 1;
+                    run(vec![], v.to_vec(), "three-units-after-a-surrogate-pair", st, k)
+                });
+                if !ok {
+                    return;
+                }
+            }
             match kind {
                 SrcKind::U16 => {
                     for (ai, &a) in memgen::UNIT_EDGES16.iter().enumerate() {
